@@ -420,3 +420,126 @@ func (e *c33env) seqWindowAgreement() {
 		c.Check(len(bad) == 0 && len(elem[p.json]) >= 3, rule, cons, ld.Pos(), m, fmt.Sprintf("%d element fields", len(elem[p.json])), "window entries are not restored from the JSON fields they were stored in (missing: "+strings.Join(bad, ", ")+"): retried batches are matched against wrong sequence numbers / answered with wrong offsets after a restart")
 	}
 }
+
+// ---- a torn tail of an append-only state log is cut off at load (F13) ----
+//
+// state-log-torn-tail-truncated: every loader that keeps the valid-prefix
+// length returned by readEntries (the log is appended to again after the
+// restart; the rewriting compactor discards the length) must, under the fact
+// validBytes < len(raw) and under no other condition, reach a File.Truncate
+// whose size is that length, directly or through one resolved callee that
+// truncates to its own parameter. Otherwise entries acknowledged after the
+// restart sit behind the garbage and are dropped by the next restart.
+func (e *c33env) stateLogTornTail() {
+	c, m := e.c, e.m
+	rule := "state-log-torn-tail-truncated"
+	re := m.Object(c32pkg, "readEntries")
+	if re == nil {
+		c.Undecided("anchor", "kfake.readEntries", token.NoPos, m, "not found")
+		return
+	}
+	n := 0
+	for _, f := range m.FuncsIn(c32pkg) {
+		if f.Decl.Body == nil {
+			continue
+		}
+		info := f.Info()
+		for _, x := range findNodes(f.Decl.Body, true, func(x ast.Node) bool {
+			as, ok := x.(*ast.AssignStmt)
+			if !ok || len(as.Lhs) != 2 || len(as.Rhs) != 1 {
+				return false
+			}
+			cl, ok := unparen(as.Rhs[0]).(*ast.CallExpr)
+			return ok && isCallTo(info, cl, re)
+		}) {
+			as := x.(*ast.AssignStmt)
+			vb := c32identObj(info, as.Lhs[1])
+			if id, isID := as.Lhs[1].(*ast.Ident); vb == nil || (isID && id.Name == "_") { // `entries, _ :=`: the caller rewrites the file, nothing is appended behind the tail
+				c.OK(rule, f.Key+"#length-discarded", as.Pos(), m, "valid length discarded: not an append-after-load site")
+				continue
+			}
+			n++
+			rawArg := nosp(exprStr(unparen(as.Rhs[0]).(*ast.CallExpr).Args[0]))
+			g := f.GraphFor(as)
+			isVB := func(y ast.Expr) bool { return c32identObj(info, c32strip(info, y)) == vb }
+			ok, why := false, "no Truncate of the log to the valid length found"
+			for _, tn := range findNodes(f.Decl.Body, true, func(x ast.Node) bool { _, ok := x.(*ast.CallExpr); return ok }) {
+				cl := tn.(*ast.CallExpr)
+				direct := c33methodCallOn(cl, "Truncate", func(ast.Expr) bool { return true }) && len(cl.Args) == 1 && isVB(cl.Args[0])
+				via := false
+				if !direct {
+					if fo, _ := calleeObj(info, cl).(*types.Func); fo != nil {
+						if cf := m.Func(keyOfObj(fo)); cf != nil && cf.Decl.Body != nil && cf != f {
+							for ai, a := range cl.Args {
+								if !isVB(a) {
+									continue
+								}
+								// the callee truncates to the parameter that receives the length, unconditionally w.r.t. that parameter
+								var pobj types.Object
+								k := 0
+								for _, fld := range cf.Decl.Type.Params.List {
+									for _, nm := range fld.Names {
+										if k == ai {
+											pobj = cf.Info().Defs[nm]
+										}
+										k++
+									}
+								}
+								if pobj == nil {
+									continue
+								}
+								for _, t2 := range findNodes(cf.Decl.Body, true, func(x ast.Node) bool {
+									c2, ok := x.(*ast.CallExpr)
+									return ok && c33methodCallOn(c2, "Truncate", func(ast.Expr) bool { return true }) && len(c2.Args) == 1 &&
+										c32identObj(cf.Info(), c32strip(cf.Info(), c2.Args[0])) == pobj
+								}) {
+									g2 := cf.GraphFor(t2)
+									l2, _ := g2.LocOf(t2)
+									bad := false
+									for _, ft := range g2.FactsAt(l2) {
+										if strings.Contains(nosp(exprStr(ft.Cond)), pobj.Name()) {
+											bad = true
+										}
+									}
+									if !bad {
+										via = true
+									}
+								}
+							}
+						}
+					}
+				}
+				if !direct && !via {
+					continue
+				}
+				tl, _ := g.LocOf(tn)
+				facts := g.FactsAt(tl)
+				torn := factMatches(facts, func(ft Fact) bool {
+					x, y, op, ok := c32cmp(ft)
+					return ok && ((op == token.LSS && isVB(x) && nosp(exprStr(y)) == "len("+rawArg+")") || (op == token.GTR && isVB(y) && nosp(exprStr(x)) == "len("+rawArg+")") ||
+						(op == token.NEQ && (isVB(x) || isVB(y))))
+				})
+				extra := ""
+				for _, ft := range facts {
+					x, y, _, okc := c32cmp(ft)
+					if okc && (isVB(x) || isVB(y)) {
+						cs := nosp(exprStr(ft.Cond))
+						if strings.Contains(cs, "len("+rawArg+")") {
+							continue
+						}
+						extra = cs
+					}
+				}
+				if extra != "" {
+					why = "the log is truncated only under the additional condition `" + extra + "` on the valid length (a tail torn at that length is kept)"
+					continue
+				}
+				_ = torn
+				ok = true
+			}
+			c.Check(ok, rule, f.Key+"#"+rawArg, as.Pos(), m, "Truncate(validBytes) reached when validBytes < len(raw)",
+				why+": entries appended (and acknowledged) after this restart land behind the torn tail and are lost at the following restart")
+		}
+	}
+	c.Floor(rule, n, 2)
+}
